@@ -114,7 +114,7 @@ UNITS += [
 KANI = []
 META = {"not_covered": [
     "merge (blob::tree::merge_trees / merge_nodes): local trait impls, BinaryHeap, `&impl Fn` parameters, mutual recursion",
-    "the assembly of the rewritten tree from the visitor's answers in modify_tree (only the change flag / save discipline is under contract)",
+    "the assembly of the rewritten tree from the visitor's answers in modify_tree: only the direction 'changed result / tree written => a change was reported' is under contract; the converse (a changed subtree forces the parent to be rewritten) is NOT -- the edit that drops `changed = true` in the Changed(tree_id) arm is not detected",
     "copy: selection of the blobs to copy (closures, TreeStreamerOnce); the byte-exact copy itself is C02's BlobCopier units, the ordering C03's copy_tail",
     "'restores identically' / 'union of paths' as whole-command statements",
 ]}
